@@ -971,6 +971,54 @@ def d2i_wrapper_equality_is_total(chk: Check) -> None:
                "identity (no __eq__ / __ne__ defined)")
 
 
+def d2k_generators_iterate_snapshots_of_mappings(chk: Check,
+                                                 cl: List[FuncInfo]) -> None:
+    """The evaluator is a chain of generators: while `*`, a search or `**`
+    is suspended at a `yield` inside `for key, val in data.items()`, the
+    segments that follow run.  With `[parent()]` they can come back to the
+    very mapping being iterated, and in optional-match mode create a key in
+    it -- the next step of the suspended loop then raises RuntimeError
+    ("OrderedDict mutated during iteration").  Loops that yield therefore
+    walk a snapshot of the mapping's view."""
+    prog = chk.prog
+    chk.rule("C15-D2k", "every loop of the evaluation closure that yields "
+             "while iterating a mapping view of document data iterates a "
+             "snapshot (list(...)) of it", floor=5)
+    n = 0
+    for fi in cl:
+        if not fi.module.relpath.endswith("processor.py"):
+            continue
+        data = fi.params()[1] if len(fi.params()) > 1 else None
+        for loop in walk_local(fi.node):
+            if not isinstance(loop, ast.For):
+                continue
+            it = loop.iter
+            snap = False
+            while isinstance(it, ast.Call) and isinstance(it.func, ast.Name) \
+                    and it.func.id in ("list", "tuple", "sorted") and it.args:
+                it = it.args[0]
+                snap = True
+            if not (isinstance(it, ast.Call) and
+                    isinstance(it.func, ast.Attribute) and
+                    it.func.attr in ("items", "keys", "values") and
+                    src(it.func.value) == data):
+                continue
+            if not any(isinstance(y, (ast.Yield, ast.YieldFrom))
+                       for st in loop.body for y in ast.walk(st)):
+                continue
+            n += 1
+            text = "{}: for ... in {}".format(fi.short, src(loop.iter)[:40])
+            if snap:
+                chk.ok("C15-D2k", fi, loop, text, "snapshot")
+            else:
+                chk.fail("C15-D2k", fi, loop, text,
+                         "the generator is suspended inside a live view of "
+                         "`{}`: a later segment that climbs back with "
+                         "[parent()] and creates a key there (optional-match "
+                         "mode) makes the resumed loop raise RuntimeError: "
+                         "OrderedDict mutated during iteration".format(data))
+
+
 def run(chk: Check) -> None:
     prog = chk.prog
     cl = c15_closure(prog)
@@ -992,6 +1040,7 @@ def run(chk: Check) -> None:
     d2f_join_over_text(chk, cl)
     d2h_aoh_means_raw_elements_are_mappings(chk)
     d2i_wrapper_equality_is_total(chk)
+    d2k_generators_iterate_snapshots_of_mappings(chk, cl)
     from rules.shared import optional_groups_rule
     optional_groups_rule(chk, "C15-D2j", ("yamlpath/common/nodes.py",
                                           "yamlpath/common/parsers.py",
